@@ -95,11 +95,13 @@ fn gen_pattern(rng: &mut Rng) -> String {
 }
 
 fn gen_host_pattern(rng: &mut Rng) -> String {
-    match rng.below(10) {
+    match rng.below(12) {
         // `*` only in the interior, in several places, and as the whole pattern
         6 => "a.*.com".into(),
         7 => format!("{}*z.test", rng.pick(&["x", "y"])),
         8 => "*.example.*".into(),
+        10 => "é.*".into(),
+        11 => "*.ünï.test".into(),
         9 => "**".into(), // (`*` alone is refused by with_host, by documented contract)
         0 => "localhost".into(),
         1 => "*.example.com".into(),
@@ -226,7 +228,7 @@ fn ask(addr: SocketAddr, method: &str, host: Option<&str>, path: &str, query: Op
 /// Several plain HTTP requests on ONE keep-alive connection (the last one asks for close). `linewise`: every head
 /// is written line by line with short pauses, an extra header line first, so that a read can end exactly at a
 /// line boundary before `Host:`. Returns one answer per request (stops at the first failure).
-fn ask_sequence(addr: SocketAddr, reqs: &[(String, Option<String>, String)], linewise: bool) -> Vec<Result<String, String>> {
+fn ask_sequence(addr: SocketAddr, reqs: &[(String, Option<String>, String)], linewise: bool, ws_last: bool) -> Vec<Result<String, String>> {
     use std::io::Write;
     let mut out = Vec::new();
     let mut c = match Conn::open(addr) {
@@ -239,7 +241,12 @@ fn ask_sequence(addr: SocketAddr, reqs: &[(String, Option<String>, String)], lin
         if let Some(h) = host {
             lines.push(format!("Host: {}\r\n", h));
         }
-        lines.push(format!("Connection: {}\r\n", if last { "close" } else { "keep-alive" }));
+        let ws = last && ws_last;
+        if ws {
+            lines.push("Upgrade: websocket\r\nConnection: Upgrade\r\nSec-WebSocket-Key: aGVsbG8=\r\n".to_string());
+        } else {
+            lines.push(format!("Connection: {}\r\n", if last { "close" } else { "keep-alive" }));
+        }
         lines.push("\r\n".to_string());
         let sent = if linewise {
             lines.iter().all(|l| {
@@ -250,6 +257,17 @@ fn ask_sequence(addr: SocketAddr, reqs: &[(String, Option<String>, String)], lin
         } else {
             c.s.write_all(lines.concat().as_bytes()).is_ok()
         };
+        if ws {
+            // as in `ask`: the lab's websocket handlers write their identity and return; no match = EOF, zero bytes
+            c.wait_closed(Duration::from_secs(10));
+            if !c.eof {
+                out.push(Err("websocket connection neither answered nor closed within 10 s".into()));
+                return out;
+            }
+            let t = String::from_utf8_lossy(&c.buf).trim().to_string();
+            out.push(Ok(if t.is_empty() { "closed-without-upgrade".into() } else { t }));
+            return out;
+        }
         // a server that answers before the whole head was written (and closes) makes later writes fail: what it
         // answered is still the observation to judge
         match c.read_response(if sent { Duration::from_secs(10) } else { Duration::from_secs(2) }) {
@@ -288,13 +306,21 @@ pub fn run_keepalive_cases(r: &mut Report, addr: SocketAddr, m: &AppModel, rng: 
         let fixed_path = if rng.chance(1, 2) { Some(gen_path(rng, m)) } else { None };
         let reqs: Vec<(String, Option<String>, String)> = (0..n).map(|_| (rng.pick(&["GET", "POST", "PUT", "DELETE"]).to_string(), gen_host(rng, m), fixed_path.clone().unwrap_or_else(|| gen_path(rng, m)))).collect();
         let linewise = rng.chance(1, 2);
-        let got = ask_sequence(addr, &reqs, linewise);
+        // one sequence in four ends with a WebSocket upgrade: it is dispatched over the websocket routes whatever came before it
+        let ws_last = rng.chance(1, 4);
+        let mut reqs = reqs;
+        if ws_last {
+            reqs.last_mut().unwrap().0 = "GET".to_string();
+            r.count("keepalive_sequences_ending_in_upgrade", 1);
+        }
+        let got = ask_sequence(addr, &reqs, linewise, ws_last);
         r.eval();
         r.count("keepalive_sequences", 1);
         for (i, (method, host, path)) in reqs.iter().enumerate() {
-            let want_name = match route_ref(m, host.as_deref(), path, false, matcher) {
-                Choice::Route(s, j) => handler_name(s, j, false),
-                Choice::NotFound => "404".into(),
+            let ws = ws_last && i + 1 == reqs.len();
+            let want_name = match route_ref(m, host.as_deref(), path, ws, matcher) {
+                Choice::Route(s, j) => handler_name(s, j, ws),
+                Choice::NotFound => if ws { "closed-without-upgrade".into() } else { "404".into() },
             };
             match got.get(i) {
                 Some(Ok(g)) if *g == want_name => r.count("keepalive_answers_matching_reference", 1),
